@@ -180,6 +180,9 @@ def run(ck):
     for c in consts_int(rng, thorough):
         for sym, op in OPS.items():
             add({"A": {"f": "%s%d" % (sym, c)}, "condition": "A"}, [expect_pattern(op, c, v) for v in vals], "pattern_int:" + op)
+            # the same predicate as a list member (the loader has a second copy of the numeric arms for lists)
+            add({"A": {"f": ["%s%d" % (sym, c)]}, "condition": "A"}, [expect_pattern(op, c, v) for v in vals], "pattern_int_list1:" + op)
+            add({"A": {"f": ["%s%d" % (sym, c), "%s%d" % (sym, c)]}, "condition": "A"}, [expect_pattern(op, c, v) for v in vals], "pattern_int_list2:" + op)
         add({"A": {"f": c}, "condition": "A"}, [expect_pattern("eq", c, v) for v in vals], "bare_int")
         if c >= 0:
             for sym, op in COND_OPS.items():
@@ -187,16 +190,20 @@ def run(ck):
                 add({"A": {"f": "*"}, "condition": "%d %s int(f)" % (c, sym)}, [expect_cast("int", op, c, v, True) for v in vals], "cast_int_flipped:" + op)
             add({"A": {"int(f)": c}, "condition": "A"}, [expect_cast("int", "eq", c, v) for v in vals], "key_int_cast")
             add({"A": {"int(f)": ">=%d" % c}, "condition": "A"}, [expect_cast("int", "ge", c, v) for v in vals], "key_int_cast_ge")
+            add({"A": {"int(f)": ["<=%d" % c]}, "condition": "A"}, [expect_cast("int", "le", c, v) for v in vals], "key_int_cast_le_list1")
     for c in consts_flt():
         txt = "%.1f" % c if c < 1e20 else "%.1f" % c
         cc = float(txt)
         for sym, op in OPS.items():
             add({"A": {"f": "%s%s" % (sym, txt)}, "condition": "A"}, [expect_pattern(op, cc, v) for v in vals], "pattern_flt:" + op)
+            add({"A": {"f": ["%s%s" % (sym, txt)]}, "condition": "A"}, [expect_pattern(op, cc, v) for v in vals], "pattern_flt_list1:" + op)
+            add({"A": {"f": ["%s%s" % (sym, txt), "%s%s" % (sym, txt)]}, "condition": "A"}, [expect_pattern(op, cc, v) for v in vals], "pattern_flt_list2:" + op)
         add({"A": {"f": cc}, "condition": "A"}, [expect_pattern("eq", cc, v) for v in vals], "bare_flt")
         if cc >= 0:
             for sym, op in COND_OPS.items():
                 add({"A": {"f": "*"}, "condition": "flt(f) %s %s" % (sym, txt)}, [expect_cast("flt", op, cc, v) for v in vals], "cast_flt:" + op)
             add({"A": {"flt(f)": "<%s" % txt}, "condition": "A"}, [expect_cast("flt", "lt", cc, v) for v in vals], "key_flt_cast_lt")
+            add({"A": {"flt(f)": ["<=%s" % txt]}, "condition": "A"}, [expect_cast("flt", "le", cc, v) for v in vals], "key_flt_cast_le_list1")
 
     send = [{k: v for k, v in c.items() if not k.startswith("_")} for c in cases]
     impl, model, _ = lib.run_cases(send, "C09")
